@@ -81,6 +81,9 @@ LEVEL_TEXT = ("Machine-checked proof (Coq, 15 theorems, closed under the global 
 LEVEL_NOTE = ("Trusted: Coq kernel, the hand-written model + encoders (tied to the code by the per-run correspondence on ~3100 quick cases, "
               "intermediate values compared), networkx ordering semantics as modelled. Modelled, not verified: RDKit; GML text tokenisation "
               "(correspondence only). Theorems are about node / bond dictionaries, not about insertion or adjacency order.")
+TECHNIQUE = ("Coq 8.16 proof about an executable Gallina model + per-run correspondence (vm_compute digest vs implementation, "
+             "intermediate graphs / GML records / pre-sanitisation RWMol compared) + independent property oracle (brute-force "
+             "structure isomorphism for rules, RDKit canonical SMILES for molecules)")
 DESIGN_REF = "DESIGN.md section 5 C10"
 
 
